@@ -5,6 +5,16 @@ open SamVerif SamVerif.Drive SamVerif.Drive.Cluster
 /-- C03 on what was observed: on a stable cluster every reply is the single server's reply, the
 data is the single server's data, and nothing is redirected -/
 def handle (_kind : String) (args : List String) (impl : String) : String :=
+  if _kind == "c03.cold" then
+    -- n INCR of one key on one connection: a single server answers 1, 2, …, n
+    (match args with
+     | [nS] =>
+       match nS.toNat? with
+       | some n =>
+         let want := "vals=" ++ ",".intercalate ((List.range n).map fun i => s!"i{i+1}")
+         if impl == want then "ok" else s!"SPEC reply-or-data-differs-from-a-single-server expected={want} impl={impl}"
+       | none => "bad-op"
+     | _ => "bad-op") else
   match evaluate args impl with
   | none => "bad-op"
   | some v =>
